@@ -227,6 +227,16 @@ func (r *Run) callBuiltin(g *Goroutine, caller *frame, fn *ssa.Builtin, args []V
 			return args[0]
 		}
 		s := args[0].(Slice)
+		if r.race != nil && caller != nil && !caller.info.noRace {
+			if a, ok := args[1].(Slice); ok {
+				for i := 0; i < a.Len; i++ {
+					r.memEvent(g, &a.Data[i], false)
+				}
+			}
+			if s.Len < s.Cap() {
+				r.memEvent(g, &s.Data[s.Len], true)
+			}
+		}
 		var add []Value
 		switch a := args[1].(type) {
 		case string:
@@ -278,6 +288,18 @@ func (r *Run) callBuiltin(g *Goroutine, caller *frame, fn *ssa.Builtin, args []V
 	case "copy":
 		dst := args[0].(Slice)
 		n := dst.Len
+		if r.race != nil && caller != nil && !caller.info.noRace {
+			if src, ok := args[1].(Slice); ok {
+				m := n
+				if src.Len < m {
+					m = src.Len
+				}
+				for i := 0; i < m; i++ {
+					r.memEvent(g, &src.Data[i], false)
+					r.memEvent(g, &dst.Data[i], true)
+				}
+			}
+		}
 		switch src := args[1].(type) {
 		case string:
 			if len(src) < n {
